@@ -16,7 +16,10 @@ Press(k) == /\ \E r \in KeyNext(st, k) :
             /\ hist' = Append(hist, [k |-> k]) /\ UNCHANGED held
 HookDone == /\ held /\ hp > 0 /\ st' = HookExit(st) /\ hp' = 0
             /\ hist' = Append(hist, [k |-> "hookexit"]) /\ UNCHANGED held
-Next == \/ \E k \in Keys : (k \in CmdToks => st.mode = "command" /\ st.buf = <<>>) /\ Press(k)
+(* the exhaustive configuration (GenDepth = 0) types the digit classes 0, a valid number, a number beyond the links, 9;
+   generated key sequences use all ten digits *)
+UsedKeys == IF GenDepth = 0 THEN (Keys \ Digits) \cup {"0", "1", "2", "3", "9"} ELSE Keys
+Next == \/ \E k \in UsedKeys : (k \in CmdToks => st.mode = "command" /\ st.buf = <<>>) /\ Press(k)
         \/ HookDone
 Spec == Init /\ [][Next]_vars
 Bound == Len(st.pages) <= MaxPages /\ Len(st.buf) <= MaxBuf
